@@ -175,11 +175,14 @@ CHECKS["C08"] = dict(
           "two sentinel events taken): model = fold of the history (dependency set; latest config; endpoint set by address, removals then "
           "additions); store view (MarshalJSON) == model; running processors == {s: valid config and endpoints known}; each processor's "
           "config is the latest object and its folded host set == latest endpoint set; exactly one running processor per service; no call "
-          "after Stop. Non-trivial: an endpoint update with both lists hit a running service, or a dependency was removed and re-added, "
+          "after Stop. part converge-concurrent: short histories (service announced, then 1..6 endpoint updates with both lists right "
+          "behind it) with a concurrent forwarder instead of pacing, so store and controller really race as in production; each history is "
+          "executed 40 times. Non-trivial: an endpoint update with both lists hit a running service, or a dependency was removed and re-added, "
           "or the controller lagged >= 2 events. Distinct by canonical JSON of the history."),
     assumptions=["invalid configurations are generated only before a service's first valid one (what should happen to a running processor on an invalid update is not stated)",
                  "a service that has only ever received removal-only endpoint updates is accepted with or without a processor (ambiguous in the statement)"],
     parts=[
+        dict(name="converge-concurrent", test="TestConvergeConcurrent", kind="rapid", crash_is_violation=True, checks={"quick": 40, "thorough": 2000}, shards=16, timeout={"quick": 900, "thorough": 3400}, records=["converge", "converge-concurrent"]),
         dict(name="converge", test="TestConverge", kind="rapid", crash_is_violation=True, checks={"quick": 2500, "thorough": 100000}, shards=16, timeout={"quick": 600, "thorough": 3000}),
     ],
 )
